@@ -196,7 +196,7 @@ def check_c11(pid, tier, seed, replay=None):
     rng, bindir, links, na, gps, pr = _common(pid, tier, seed)
     mc, problems = model_check('quick')
     use = [0, 1, 2, 3, 5, 6, 9]
-    scns = fam_locality(rng, use, 14 if q else 300, na, thorough=not q)
+    scns = fam_locality(rng, use, 14 if q else 1200, na, thorough=not q)
     for s_ in scns: s_.prelude = prelude(use)
     res = run_batch(pid, scns, bindir, 'pdh', *TRACE, prelude=prelude(use))
     res['infra'] += pr['infra']
@@ -213,7 +213,7 @@ def check_c02(pid, tier, seed, replay=None):
     t0 = time.time(); q = tier == 'quick'
     rng, bindir, links, na, gps, pr = _common(pid, tier, seed)
     with ThreadPoolExecutor(max_workers=2) as ex:
-        f1 = ex.submit(model_check, tier); f2 = ex.submit(gen_histories, seed, 60 if q else 1500, 9 if q else 12)
+        f1 = ex.submit(model_check, tier); f2 = ex.submit(gen_histories, seed, 60 if q else 5000, 9 if q else 12)
         (mc, problems), hists = f1.result(), f2.result()
     extra_viol = []
     for kind, name, txt in problems:
@@ -225,7 +225,7 @@ def check_c02(pid, tier, seed, replay=None):
         l = [0, 1, 6, 3][i % 4]
         scns.append(scn_from_hist(rng, i, hs, h, l, na.get(l, 10)))
     resolve_rel(scns, gps)
-    scns += fam_lifecycle(rng, 300 if q else 20000, links, na) + fam_hdrbits(rng, 400 if q else 30000, [0, 1, 2, 4])
+    scns += fam_lifecycle(rng, 300 if q else 60000, links, na) + fam_hdrbits(rng, 400 if q else 90000, [0, 1, 2, 4])
     # synthetic set-ups written by TLC from Setup.tla: well-formed shapes and one-field boundary mutations, decoded with silent and pseudo-random packets
     import checks.syn as SY
     cases, gstats, gproblems = SY.gen_cases(('shapes', 'mutations'))
